@@ -55,7 +55,8 @@ def load(modname):
         try:
             return importlib.import_module(modname)
         finally:
-            pass
+            # the stub must not stay visible: core.util.check_gdb() probes for a `gdb` module
+            sys.modules.pop('gdb', None)
     return importlib.import_module(modname)
 
 
